@@ -449,6 +449,9 @@ func decodeEdit(data []byte) (Edit, error) {
 			if pos > len(data) {
 				return Edit{}, fmt.Errorf("manifest region edit truncated peer count")
 			}
+			if peersCount > uint64(len(data)-pos)/2 {
+				return Edit{}, fmt.Errorf("manifest region edit peer count %d exceeds payload", peersCount)
+			}
 			peers := make([]PeerMeta, 0, peersCount)
 			for i := uint64(0); i < peersCount; i++ {
 				storeID, n := uvarintAt(data, pos)
